@@ -3,6 +3,7 @@
 from __future__ import annotations
 
 import ast
+import copy
 import os
 import re
 
@@ -223,7 +224,8 @@ def check_table(ctx: Ctx, rule: str) -> None:
         return (lambda v: v["SHOWN"]) if ".show(state_params" in t and " in " in t else None
 
     def m_vm(t):
-        return (lambda v: v["VM"]) if t.endswith(" == 'nets/vms'") else None
+        # "the object is a vm": whichever spelling of the type the code tests (rule 4v decides which spellings it must accept)
+        return (lambda v: v["VM"]) if t.endswith((" == 'nets/vms'", " in ['vms', 'nets/vms']", " in ['nets/vms', 'vms']", " in ('vms', 'nets/vms')", " in ('nets/vms', 'vms')")) else None
 
     matchers = _common_matchers("check") + [m_re, m_shown, m_vm]
 
@@ -239,8 +241,11 @@ def check_table(ctx: Ctx, rule: str) -> None:
                 return ("raise:TestError", ())
         elif v["X"] == "f":
             eff = (("vm.destroy",) if v["VM"] else ("unset_root",)) + ("set_root",)
-        else:
+        elif v["X"] == "r":
             eff = ("get_root",)
+        else:
+            # "an invalid policy raises without altering any state": like the root-missing letter, any other root-exists letter is rejected
+            return ("raise:TestError", ())
         if v["ROOT"]:
             return ("next", eff)
         return ("next", eff) if v["SHOWN"] else ("return False", eff)
@@ -248,7 +253,7 @@ def check_table(ctx: Ctx, rule: str) -> None:
     spec = TableSpec({"SK": B, "IMG": B, "RO": B, "HAS": B, "RE": B, "X": LETTERS, "Y": LETTERS, "ROOT": B, "SHOWN": B, "VM": B},
                      matchers, reference)
     table_rule(ctx, rule, fref, views, spec, _cached_outcome(),
-               construct="check_states per object: root missing: f -> set_root, r -> False, else TestError; root present: f -> destroy/unset_root + set_root, else get_root; "
+               construct="check_states per object: root missing: f -> set_root, r -> False, else TestError; root present: f -> destroy/unset_root + set_root, r -> get_root, else TestError; "
                "then root keyword -> root exists, else state in show(); first missing -> False")
     fn = ctx.repo.func(fref)
     tail = [s for s in fn.node.body if isinstance(s, ast.Return)]
@@ -305,10 +310,12 @@ def push_pop(ctx: Ctx, rule: str) -> None:
         # parameters prepared for the delegation
         stores = {}
         order = []
-        for s in ast.walk(loop):
+        state_locals = {ast.unparse(a_.targets[0]) for a_ in ast.walk(loop) if isinstance(a_, ast.Assign) and ast.unparse(a_.value) == f"{sp}['{op}_state']"}
+        for s in (x for st_ in _expand_helper_calls(ctx, loop.body) for x in ast.walk(st_)):
             if isinstance(s, ast.Assign) and len(s.targets) == 1 and isinstance(s.targets[0], ast.Subscript) \
                     and ast.unparse(s.targets[0].value) == sp and isinstance(s.targets[0].slice, ast.Constant):
-                stores.setdefault(s.targets[0].slice.value, []).append(ast.unparse(s.value))
+                val = ast.unparse(s.value)
+                stores.setdefault(s.targets[0].slice.value, []).append(f"{sp}['{op}_state']" if val in state_locals else val)
         want = {"states_chain": ["composite_types[-1]"]}
         for o, callee, default in plan:
             want[f"{o}_state"] = [f"{sp}['{op}_state']"]
@@ -329,6 +336,100 @@ def push_pop(ctx: Ctx, rule: str) -> None:
                    f"{op}: single object pinned (states_chain = last composite type, each composite name), "
                    + ", ".join(f"{o}_state = {op}_state, {o}_mode default '{d}'" for o, _, d in plan), ok, {"stores": stores},
                    "" if ok else f"the parameters {op}_states prepares for its delegated operation changed: {stores}")
+
+
+def _expand_helper_calls(ctx: Ctx, stmts: list[ast.stmt]) -> list[ast.stmt]:
+    """Statements with calls of module-level private procedures `_f(a, "const", ...)` (statement position) replaced by the procedure's body,
+    parameters substituted by the arguments and f-strings over constants folded - so that a rule sees the stores where they take effect."""
+    mod = ctx.repo.module(SETUP)
+    procs = {f.name: f for f in mod.body if isinstance(f, ast.FunctionDef) and f.name.startswith("_")}
+
+    class Sub(ast.NodeTransformer):
+        def __init__(self, m):
+            self.m = m
+
+        def visit_Name(self, n):
+            return copy.deepcopy(self.m[n.id]) if n.id in self.m and isinstance(n.ctx, ast.Load) else n
+
+        def visit_JoinedStr(self, n):
+            self.generic_visit(n)
+            if all(isinstance(v, ast.Constant) or (isinstance(v, ast.FormattedValue) and isinstance(v.value, ast.Constant) and v.format_spec is None and v.conversion == -1) for v in n.values):
+                return ast.Constant(value="".join(str(v.value if isinstance(v, ast.Constant) else v.value.value) for v in n.values))
+            return n
+
+    out = []
+    for st in stmts:
+        c = st.value if isinstance(st, ast.Expr) else None
+        if isinstance(c, ast.Call) and isinstance(c.func, ast.Name) and c.func.id in procs and not c.keywords:
+            f = procs[c.func.id]
+            names = [a.arg for a in f.args.args]
+            if len(names) == len(c.args) and not any(isinstance(x, (ast.Return, ast.Yield)) for x in ast.walk(f)):
+                m = dict(zip(names, c.args))
+                body = [b for b in f.body if not (isinstance(b, ast.Expr) and isinstance(b.value, ast.Constant))]
+                out += [ast.fix_missing_locations(Sub(m).visit(copy.deepcopy(b))) for b in body]
+                continue
+        out.append(st)
+    return out
+
+
+def vm_type_spelling(ctx: Ctx, rule: str) -> None:
+    """get/set/unset (and push/pop through them) call check_states with `states_chain` restricted to the LAST composite type, so inside
+    that call a vm has the object type 'vms', not 'nets/vms' (the backends accept both: `in ["vms", "nets/vms"]`).  A test that knows only
+    the full spelling is dead on every call but the direct one; the leading skip guards are exempt (the outer call has applied them)."""
+    restrict = [f"{SETUP}:_state_check_chain", f"{SETUP}:push_states", f"{SETUP}:pop_states"]
+    restricted_callees = set()
+    for fr in restrict:
+        f = ctx.repo.func(fr)
+        ctx.touch(fr)
+        if any(isinstance(s_, ast.Assign) and ast.unparse(s_.targets[0]).endswith("['states_chain']") and ast.unparse(s_.value).endswith("[-1]") for s_ in ast.walk(f.node)):
+            restricted_callees |= {call_name(c) for c in calls_in(f.node) if call_name(c) in ("check_states", "get_states", "set_states", "unset_states")}
+    if "check_states" not in restricted_callees:
+        raise AnalysisError("the restriction of states_chain to the last composite type before the nested check was not found")
+    bad, n = [], 0
+    for name in sorted(restricted_callees):
+        fref, loop = _object_loop(ctx, name)
+        guards = {id(x) for i_ in [s_ for s_ in loop.body if isinstance(s_, ast.If)][:2] for x in ast.walk(i_.test)}
+        for cmp_ in ast.walk(loop):
+            if isinstance(cmp_, ast.Compare) and len(cmp_.ops) == 1 and ast.unparse(cmp_.left) == "params_obj_type" and id(cmp_) not in guards:
+                comp = cmp_.comparators[0]
+                vals = [comp.value] if isinstance(comp, ast.Constant) else [e.value for e in comp.elts if isinstance(e, ast.Constant)] if isinstance(comp, (ast.List, ast.Tuple, ast.Set)) else None
+                if vals is None:
+                    continue
+                n += 1
+                for val in vals:
+                    if isinstance(val, str) and "/" in val and val.split("/")[-1] not in vals:
+                        bad.append(f"{name}: `{ast.unparse(cmp_)}` (line {cmp_.lineno})")
+    ctx.record(rule, "SIBLING", f"{SETUP}:check_states", "inside operations that are also called with the object chain restricted to its last type, an object type test accepts the restricted spelling too", not bad and n >= 1,
+               {"type_tests": n, "full_spelling_only": bad},
+               "" if not bad else f"a type test knows only the full spelling of a type, but get/set/unset/push/pop reach it with the last composite type only ('vms'): the branch is dead there - {bad[0]} "
+               "(the forced root check of a vm goes to unset_root, a hard destroy, instead of the soft-boot aware vm.destroy)")
+
+
+def push_pop_override(ctx: Ctx, rule: str) -> None:
+    """push/pop hand the already resolved per-object parameters to set/get/unset_states, whose object iteration resolves suffixed keys AGAIN
+    (`object_params(<name>)`, `object_params(<type>)`): a `set_state_images` / `get_mode_images_vm1` of the node itself then overrides the plain
+    `set_state` / `get_mode` push/pop have just written.  The plain keys take effect only if the suffixed variants of the delegated
+    operation are removed from the parameters first (sync_states does exactly that for its own requests)."""
+    for op, plan in (("push", ["set"]), ("pop", ["get", "unset"])):
+        fref, loop = _object_loop(ctx, f"{op}_states")
+        sp = loop.target.id
+        stmts = _expand_helper_calls(ctx, loop.body)
+        missing = []
+        for o in plan:
+            want = norm.formula(ast.parse(f"K.startswith('{o}_state_') or K.startswith('{o}_mode_')", mode="eval").body)
+            found = False
+            for l in (x for st in stmts for x in ast.walk(st)):
+                if isinstance(l, ast.For) and isinstance(l.target, ast.Name) and sp in ast.unparse(l.iter):
+                    for i_ in ast.walk(l):
+                        if isinstance(i_, ast.If) and any(isinstance(d, ast.Delete) and ast.unparse(d.targets[0]) == f"{sp}[{l.target.id}]" for d in i_.body):
+                            if norm.implies(want, norm.formula(i_.test, rename={l.target.id: "K"})):
+                                found = True
+            if not found:
+                missing.append(o)
+        ctx.record(rule, "ORDER", fref, f"{op}: the suffixed variants ({', '.join(o + '_state_*/' + o + '_mode_*' for o in plan)}) are removed from the resolved parameters before the delegated operation resolves them again",
+                   not missing, {"operations_without_removal": missing},
+                   "" if not missing else f"{op}_states writes plain {missing[0]}_state / {missing[0]}_mode but leaves the node's own {missing[0]}_state_<type> / {missing[0]}_mode_<type> in the parameters: "
+                   f"the delegated {missing[0]}_states resolves them again and operates on that state / with that policy instead of the {op}ed one")
 
 
 def check_chain(ctx: Ctx, rule: str) -> None:
@@ -565,7 +666,9 @@ def run(ctx: Ctx) -> None:
     ctx.call(op_table, "3", "unset")
     ctx.call(check_table, "4")
     ctx.call(root_fetch_purpose, "4g")
+    ctx.call(vm_type_spelling, "4v")
     ctx.call(push_pop, "5")
+    ctx.call(push_pop_override, "5v")
     ctx.call(readme_table, "7")
     ctx.call(check_chain, "9")
     from ..kinds import signature_defaults
@@ -575,6 +678,10 @@ def run(ctx: Ctx) -> None:
 
 
 MUTANTS = [
+    ('push-keeps-suffixed-set-state', 'states/setup.py', '        _state_operation_override(\n            state_params, "set", state, state_params.get("push_mode", "af")\n        )\n', '        state_params["set_state"] = state_params["push_state"]\n        state_params["set_mode"] = state_params.get("push_mode", "af")\n', '5v'),
+    ('override-deletes-nothing', 'states/setup.py', '        if key.startswith(f"{do}_state_") or key.startswith(f"{do}_mode_"):\n            del state_params[key]\n', '        if key.startswith(f"{do}_state_") and key.startswith(f"{do}_mode_"):\n            del state_params[key]\n', '5v'),
+    ('forced-vm-check-full-spelling-only', 'states/setup.py', '            if params_obj_type in ["vms", "nets/vms"]:\n                vm.destroy(', '            if params_obj_type == "nets/vms":\n                vm.destroy(', '4v'),
+    ('invalid-root-exists-letter-reuses', 'states/setup.py', '        elif action_if_root_exists == "r":\n            state_backend.get_root(root_params, state_object)\n        else:\n            raise exceptions.TestError(\n                f"Invalid policy {action_if_root_exists}: The root "\n                "existence action can be either of \'reuse\' or \'force\'."\n            )\n', '        else:\n            state_backend.get_root(root_params, state_object)\n', '4'),
     ("iteration-writes-input", SETUP, "        obj_params[params_obj_type] = params_obj_name\n", "        params[params_obj_type] = params_obj_name\n        obj_params[params_obj_type] = params_obj_name\n", "11w"),
     ("show-lists-skipped-types", SETUP, "    states = []\n    for state_params in _parametric_object_iteration(run_params):\n        params_obj_name = state_params[\"object_name\"]\n        params_obj_type = state_params[\"object_type\"]\n        if params_obj_type in state_params.objects(\"skip_types\"):", "    states = []\n    for state_params in _parametric_object_iteration(run_params):\n        params_obj_name = state_params[\"object_name\"]\n        params_obj_type = state_params[\"object_type\"]\n        if params_obj_type not in state_params.objects(\"skip_types\"):", "13"),
     ("push-touches-readonly-image", SETUP, "        if params_obj_type == \"nets/vms/images\" and state_params.get_boolean(\n            \"image_readonly\", False\n        ):\n            logging.warning(\n                f\"Incorrect configuration: cannot use any state \"\n                f\"from readonly image {params_obj_name} - skipping\"\n            )\n            continue\n\n        if not state_params.get(\"push_state\"):",
@@ -587,8 +694,8 @@ MUTANTS = [
      "        if not state_exists and \"a\" == action_if_doesnt_exist:\n            state_backend.unset(state_params, state_object)\n            logging.info(\"Aborting because of missing snapshot for final cleanup\")", "3"),
     ("unset-reuse-removes", SETUP, "                params_obj_name,\n            )\n            continue\n        elif state_exists and \"f\" == action_if_exists:\n            pass", "                params_obj_name,\n            )\n        elif state_exists and \"f\" == action_if_exists:\n            pass", "3"),
     ("push-default-ff", SETUP, "state_params.get(\"push_mode\", \"af\")", "state_params.get(\"push_mode\", \"ff\")", "5up"),
-    ("push-whole-chain", SETUP, "        state_params[\"states_chain\"] = composite_types[-1]\n\n        state_params[\"set_state\"] = state_params[\"push_state\"]",
-     "        state_params[\"states_chain\"] = \" \".join(composite_types)\n\n        state_params[\"set_state\"] = state_params[\"push_state\"]", "5up"),
+    ("push-whole-chain", SETUP, "        state_params[\"states_chain\"] = composite_types[-1]\n\n        _state_operation_override(\n            state_params, \"set\",",
+     "        state_params[\"states_chain\"] = \" \".join(composite_types)\n\n        _state_operation_override(\n            state_params, \"set\",", "5up"),
     ("check-root-created-but-missing", SETUP, "                state_backend.set_root(root_params, state_object)\n                root_exists = True\n            elif action_if_root_doesnt_exist == \"r\":",
      "                state_backend.set_root(root_params, state_object)\n            elif action_if_root_doesnt_exist == \"r\":", "4"),
     ("check-skip-after-root", SETUP, "        # if the snapshot is not defined skip (leaf tests that are no setup)\n        if not state_params.get(\"check_state\"):",
